@@ -649,7 +649,8 @@ func (idx *indexer) indexSince(txID uint64) error {
 
 			n := serializeIndexableEntry(b[:], txmd, e, kvmd)
 
-			idx._kvs[indexableEntries].K = targetKey
+			// targetKey may alias the key buffer of idx.tx, which is reused for the next transaction of the same bulk
+			idx._kvs[indexableEntries].K = append(idx._kvs[indexableEntries].K[:0], targetKey...)
 			idx._kvs[indexableEntries].V = b[:n]
 			idx._kvs[indexableEntries].T = txID + uint64(i)
 
@@ -714,7 +715,7 @@ func (idx *indexer) indexSince(txID uint64) error {
 
 					n := serializeIndexableEntry(b[:], txmd, prevEntry, kvmd.Bytes())
 
-					idx._kvs[indexableEntries].K = targetPrevKey
+					idx._kvs[indexableEntries].K = append(idx._kvs[indexableEntries].K[:0], targetPrevKey...)
 					idx._kvs[indexableEntries].V = b[:n]
 					idx._kvs[indexableEntries].T = txID + uint64(i)
 
